@@ -26,6 +26,12 @@ def collect(args):
         if os.path.exists(meta):
             prop = json.load(open(meta)).get("property", "?")
         items.append((prop, "seeded/" + os.path.basename(os.path.dirname(p)), p))
+    if "--benign" in args:
+        items = []
+        for p in sorted(glob.glob(os.path.join(VERIF, "benign", "*", "patch.diff"))):
+            meta = os.path.join(os.path.dirname(p), "meta.json")
+            prop = json.load(open(meta)).get("property", "?") if os.path.exists(meta) else "?"
+            items.append((prop, "benign/" + os.path.basename(os.path.dirname(p)), p))
     want = [a for a in args if not a.startswith("-")]
     if want:
         items = [it for it in items if any(w.lower() in (it[0] + " " + it[1]).lower() for w in want)]
@@ -81,18 +87,23 @@ def main(args):
         print("no mutants found")
         return 0
     bad = 0
+    benign = "--benign" in args
     for prop, name, patch in items:
         verdict, out, dt = run_one(prop, name, patch, tier)
+        if benign:
+            # behaviour-preserving changes: the check must stay quiet
+            verdict = {"MISSED": "QUIET", "CAUGHT": "FALSE-ALARM"}.get(verdict, verdict)
         line = ""
         for l in out.splitlines():
             if l.startswith("violation:"):
                 line = l[:260]
                 break
         print("%-8s %-4s %-44s %5.1fs %s" % (verdict, prop, name, dt, line))
-        if verdict != "CAUGHT":
+        if verdict != ("QUIET" if benign else "CAUGHT"):
             bad += 1
             if verdict.startswith("ERROR") or verdict == "PATCH-FAILED":
                 print(out[-1500:])
         sys.stdout.flush()
-    print("sensitivity: %d/%d caught" % (len(items) - bad, len(items)))
+    print("%s: %d/%d %s" % ("benign" if benign else "sensitivity", len(items) - bad, len(items),
+                            "quiet" if benign else "caught"))
     return 0 if bad == 0 else 1
